@@ -68,7 +68,12 @@ class Bucket:
             self.reset()
             return
         # the source code of the file changed, we need to reload
-        checksum = pickle.load(f)
+        # a truncated or corrupt checksum is treated like a changed one
+        try:
+            checksum = pickle.load(f)
+        except Exception:
+            self.reset()
+            return
         if self.checksum != checksum:
             self.reset()
             return
